@@ -1545,7 +1545,7 @@ func sameRequest(r *core.Run, v, rq ssa.Value, depth int) bool {
 
 // rule098 — bolt transactions never outlive the call that opened them.
 func rule098(r *core.Run) {
-	r.Rule("R09.8", "the bolt backend opens transactions only through (*bolt.DB).View / Update (scoped to a closure), never with Begin: a read transaction that is still open when a writer has to grow the file blocks that writer while it holds the write lock, and every later request behind it — the server hangs")
+	r.Rule("R09.8", "the bolt backend opens transactions only through (*bolt.DB).View / Update (scoped to a closure), never with Begin: a read transaction that is still open when a writer has to grow the file blocks that writer while it holds the write lock, and every later request behind it — the server hangs; nothing reachable from the body of a View/Update opens another transaction (a nested write transaction waits for itself)")
 	n, scoped := 0, 0
 	for _, fn := range r.P.FuncsOfPkg("s3bolt") {
 		f := fn
@@ -1561,6 +1561,47 @@ func rule098(r *core.Run) {
 			case "(*go.etcd.io/bbolt.DB).View", "(*go.etcd.io/bbolt.DB).Update":
 				scoped++
 			}
+		})
+	}
+	// no transaction is opened while another one is open in the same call: bolt's write
+	// transactions are exclusive (a nested Update waits for the outer one: self-deadlock), and a
+	// read transaction under a writer of the same goroutine deadlocks when the file has to grow
+	isTx := func(n string) bool {
+		switch n {
+		case "(*go.etcd.io/bbolt.DB).View", "(*go.etcd.io/bbolt.DB).Update", "(*go.etcd.io/bbolt.DB).Batch", "(*go.etcd.io/bbolt.DB).Begin":
+			return true
+		}
+		return false
+	}
+	nn := 0
+	for _, fn := range r.P.FuncsOfPkg("s3bolt") {
+		f := fn
+		core.Instrs(f, func(in ssa.Instruction) {
+			c, ok := in.(ssa.CallInstruction)
+			if !ok || !isTx(r.P.CalleeName(c)) || len(c.Common().Args) < 2 {
+				return
+			}
+			var root *ssa.Function
+			switch x := c.Common().Args[1].(type) {
+			case *ssa.MakeClosure:
+				root, _ = x.Fn.(*ssa.Function)
+			case *ssa.Function:
+				root = x
+			}
+			if root == nil {
+				return
+			}
+			nn++
+			bad := ""
+			for g := range reachableFrom(r, []*ssa.Function{root}) {
+				core.Instrs(g, func(y ssa.Instruction) {
+					if cc, isCall := y.(ssa.CallInstruction); isCall && isTx(r.P.CalleeName(cc)) {
+						bad = fname(r, g) + " at " + pos(r, y)
+					}
+				})
+			}
+			r.Check(bad == "", "R09.8", key(fname(r, f), "no transaction inside a transaction", sprintf("#%d", nn)), pos(r, in), "nothing reachable from the transaction body opens a transaction",
+				"a bolt transaction is opened while this one is still open (in "+bad+"): a write transaction inside a transaction waits for itself — the request never answers and every later write queues behind it")
 		})
 	}
 	r.Check(scoped >= 8, "R09.8", key("s3bolt", "transactions are closure-scoped"), "", sprintf("%d View/Update transactions, no Begin", scoped), "fewer closure-scoped bolt transactions than the backend's operations need: the anchors moved")
